@@ -136,8 +136,9 @@ def h_session(ctx, mods, shape):
 
 
 from .c06 import h_threads, h_async
+from .c15 import h_short
 
-HARNESSES = {'pack': h_pack, 'range': h_range, 'checksum': h_checksum, 'session': h_session, 'threads': h_threads, 'async': h_async}
+HARNESSES = {'pack': h_pack, 'range': h_range, 'checksum': h_checksum, 'session': h_session, 'threads': h_threads, 'async': h_async, 'short': h_short}
 
 
 def shapes(tier, seed):
@@ -160,6 +161,10 @@ def shapes(tier, seed):
         if not q:
             out.append({'h': 'session', 'impl': impl, 'maxdata': 65536, 'fsize': 150000, 'auth': False})
             out.append({'h': 'session', 'impl': impl, 'maxdata': 1 << 20, 'fsize': 150000, 'auth': False})
+    # short writes: the bytes the transport accepted still form well-framed messages (two short writes may hit the same buffer)
+    for impl in ('sync', 'async'):
+        out.append({'h': 'short', 'impl': impl, 'op': 'connect', 'nshort': 2})
+        out.append({'h': 'short', 'impl': impl, 'op': 'shell', 'spec': 'shell', 'nshort': 2, 'max_paths': 400000})
     # concurrent streams: header and payload of one message stay back-to-back on the wire (the results themselves are judged by C06)
     sh = ['shell', {'lens': [1]}]
     out.append({'h': 'async', 'ops': [sh, sh], 'judge_results': False, 'max_paths': 60000})
